@@ -30,12 +30,14 @@
                                                               x and t of one common shape; its tangent is the
                                                               derivative only when sum_axis t = 1 (D11)
      MaxPooling2D                                             Tensor/AdjMax.v (pool2d_red windows)
-     DivideScalarR/L, PowScalarR/L                            Tensor/AdjScalarR.v (BACKWARD bodies as kernel compositions) *)
+     DivideScalarR/L, PowScalarR/L                            Tensor/AdjScalarR.v (BACKWARD bodies as kernel compositions)
+     SoftmaxCrossEntropy with x and t of batch B vs 1 (either way), SparseSoftmaxCrossEntropy with x of
+     batch 1 and B index lists                                Tensor/AdjSoftmaxB.v (RSCEb, RSparseSCEb) *)
 From Coq Require Import List NArith ZArith Bool Arith Lia Ring Reals RealField Lra.
 From PV Require Import Graph.OpFamily Graph.Tape Graph.Lazy Graph.Backward Graph.TapeLemmas Graph.LazyProofs
   Graph.BackwardProofs Graph.ADProof Tensor.Kernels Tensor.Index Tensor.ProofsBilinear
   Scalar.ScalarBase Gen.ScalarGen Scalar.Deriv Scalar.Pown
-  Tensor.AdjCore Tensor.AdjMatmul Tensor.GraphInst Tensor.AdjMax Tensor.AdjSoftmax Tensor.AdjScalarR.
+  Tensor.AdjCore Tensor.AdjMatmul Tensor.GraphInst Tensor.AdjMax Tensor.AdjSoftmax Tensor.AdjSoftmaxB Tensor.AdjScalarR.
 Import ListNotations.
 Local Open Scope R_scope.
 
@@ -89,7 +91,9 @@ Inductive rop :=
 | RDivScalarR (sx sk : tshape)
 | RDivScalarL (sx sk : tshape)
 | RPowScalarR (sx sk : tshape)
-| RPowScalarL (sx sk : tshape).
+| RPowScalarL (sx sk : tshape)
+| RSCEb (sx st srx sy : tshape) (dim : nat)
+| RSparseSCEb (sx srx sp : tshape) (ids : list nat) (dim : nat).
 
 Notation opdescR := (@opdesc R).
 Definition describeR (o : rop) : opdescR :=
@@ -112,6 +116,8 @@ Definition describeR (o : rop) : opdescR :=
   | RDivScalarL sx sk => divscl_desc sx sk
   | RPowScalarR sx sk => powscr_desc sx sk
   | RPowScalarL sx sk => powscl_desc sx sk
+  | RSCEb sx st srx sy dim => sceb_desc sx st srx sy dim
+  | RSparseSCEb sx srx sp ids dim => ssceb_desc sx srx sp ids dim
   end.
 
 Definition real_family : OpFamily rop tshape (@OpFamily.vec R) :=
@@ -122,7 +128,7 @@ Definition real_jvp : JvpFamily (R := R) rop := desc_jvp describeR.
 
 Theorem describeR_LA (o : rop) : desc_LA 0 Rplus Rmult (describeR o).
 Proof.
-  destruct o as [c|u s|c s k|s|s|s k|b sa sb|sx sy dim|sx sy dim|sx sy dim|sx sy dim|sx sp ids dim|sx sy w0 w1 p0 p1 s0 s1|sx sk|sx sk|sx sk|sx sk]; cbn [describeR].
+  destruct o as [c|u s|c s k|s|s|s k|b sa sb|sx sy dim|sx sy dim|sx sy dim|sx sy dim|sx sp ids dim|sx sy w0 w1 p0 p1 s0 s1|sx sk|sx sk|sx sk|sx sk|sx st srx sy dim|sx srx sp ids dim]; cbn [describeR].
   - apply (describe_LA 0 1 Rplus Rmult Rminus Ropp RthR).
   - apply (uny_LA 0 1 Rplus Rmult Rminus Ropp RthR). intros x y g.
     destruct (bw_linear_unary x y g) as (H1 & H2 & H3 & H4 & H5 & H6 & H7 & H8 & H9 & H10). destruct u; assumption.
@@ -144,6 +150,8 @@ Proof.
   - apply divscl_LA.
   - apply powscr_LA.
   - apply powscl_LA.
+  - apply sceb_LA.
+  - apply ssceb_LA.
 Qed.
 
 Theorem real_LocalAdjoint (o : rop) : LocalAdjoint 0 Rplus Rmult real_family real_jvp tsize o.
